@@ -9,6 +9,22 @@ Theorem C08_search_refuted :
 Proof. exact search_refuted. Qed.
 Print Assumptions C08_search_refuted.
 
+(** ... and with the corrected CaseWhen arm (intersection over all branches and the default; nothing without
+    a default) the check is sound for trees of any shape and depth: every accepted tree has, on every
+    execution path, a write before every read of a temporary (not flagged maybe-uninitialized) *)
+Theorem C08_search_sound : forall MU t, wf_block t = true ->
+  search_invalid_fixed MU t = Accept -> def_before_use MU t.
+Proof. exact search_fixed_sound. Qed.
+Print Assumptions C08_search_sound.
+
+Example C08_search_sound_nonvacuous :
+  let d := SExpr false [OOther] (OTemp 1) in
+  let t := BCons (SCase OOther (BrCons OOther (BCons d BNil) (BrCons OOther (BCons d BNil) BrNil)) true (BCons d BNil))
+           (BCons (SOther [OTemp 1]) BNil) in
+  wf_block t = true /\ search_invalid_fixed [] t = Accept /\ search_invalid_fixed [] match_witness = RejInvalid.
+Proof. vm_compute. repeat split. Qed.
+Print Assumptions C08_search_sound_nonvacuous.
+
 Theorem C08_states_sound : forall sts, check_states sts = true ->
   forall s, In s sts -> forall pre x post, lin_block s = pre ++ AR (OTemp x) :: post -> In (AW (OTemp x)) pre.
 Proof. exact states_sound. Qed.
@@ -25,6 +41,23 @@ Theorem C08_cleanup_boolcast_refuted :
   exists t, search_invalid_fixed [] t = Accept /\ def_before_use [] t /\ ~ def_before_use [] (cleanup t).
 Proof. exact boolcast_refuted. Qed.
 Print Assumptions C08_cleanup_boolcast_refuted.
+
+(** cleanup_unused removes no write that a remaining read needs: a temporary that is read anywhere in the
+    context keeps every one of its writes.  _partial: this is the unused-temporary half in program (visit) order;
+    the bool-cast half is REFUTED above for the code as written (C08_cleanup_boolcast_refuted), and a path-wise
+    statement [def_before_use t -> def_before_use (cleanup_fixed t)] for the proposed transitive replacement is
+    not proved (it is only evaluated per case by the harness). *)
+Theorem C08_cleanup_preserves_partial : forall t r,
+  In r (reads_of (lin_block t)) -> In (AW (OTemp r)) (lin_block t) ->
+  In (AW (OTemp r)) (lin_block (cleanup_unused t)).
+Proof. exact cleanup_unused_keeps_needed_writes. Qed.
+Print Assumptions C08_cleanup_preserves_partial.
+
+Example C08_cleanup_nonvacuous :
+  let t := BCons (SExpr false [OOther] (OTemp 1)) (BCons (SExpr false [OOther] (OTemp 2)) (BCons (SOther [OTemp 1]) BNil)) in
+  temp_lin (cleanup_unused t) = [AW (OTemp 1); AR (OTemp 1)].
+Proof. exact cleanup_unused_nonvacuous. Qed.
+Print Assumptions C08_cleanup_nonvacuous.
 
 (** definite assignment of the emitted process body is sound for the VHDL semantics *)
 Theorem C08_def_assign_sound : forall T body sg ev v1 v2,
